@@ -38,7 +38,7 @@ CONSTANTS
   ConOps,      \* sequence of associative op names for Contraction (red = nullop, no vars)
   ConMax,      \* largest number of Contraction terms (0: no Contraction)
   TupMax,      \* largest Tuple width (0: no Tuple); a Tuple closes the pool
-  TupNest,     \* TRUE: a Tuple may contain an earlier Tuple (outside the model's fragment)
+  TupNest,     \* TRUE: a Tuple may contain an earlier Tuple (the model lowers it; compile_funsor mis-numbers it)
   RunMachine,  \* TRUE: run the program machine on every expression
   CheckModel,  \* TRUE: check the lowering theorems on every expression
   Tag          \* lens name copied into emitted records
@@ -259,7 +259,7 @@ Inv_EnvShape ==
        /\ env = ExecFrom([prog EXCEPT !.ops = SubSeq(prog.ops, 1, pc - 1)], Env0(prog, kw), 1)
 
 \* every emitted expression is inside the model's fragment unless the lens says otherwise
-Inv_Fragment == (Building /\ pool # <<>> /\ ~TupNest /\ \A k \in 1..Len(Leaves) : InFragment(Leaves[k]))
+Inv_Fragment == (Building /\ pool # <<>> /\ \A k \in 1..Len(Leaves) : InFragment(Leaves[k]))
                    => InFragment(Last)
 
 -----------------------------------------------------------------------------
